@@ -498,6 +498,22 @@ func checkC15(e *Engine, r *Report) {
 					r.Check("R8:no-store-in-goroutine#"+f.Name(), "R8 publish-before-spawn",
 						"pod."+f.Name()+" is read by other functions, so it must not be written by the spawned goroutine (unsynchronised with readers)", e.InstrPos(at), at.Parent(), false, "", true)
 				}
+				// fields the goroutine writes must not be read reflectively by the cache snapshot
+				// (json.Marshal of the pod reads every exported, non-excluded field without any rendezvous)
+				if st, ok := podT.Underlying().(*types.Struct); ok {
+					for f, at := range stored {
+						for i := 0; i < st.NumFields(); i++ {
+							if st.Field(i) != f {
+								continue
+							}
+							tag := reflectTagJSON(st.Tag(i))
+							serialized := f.Exported() && tag != "-"
+							r.Check("R8:serialized-while-fetching#"+f.Name(), "R8 publish-before-spawn",
+								"pod."+f.Name()+" is written by the fetch goroutine, so it must not be part of what cache.Snapshot marshals (exported and not json:\"-\"), which reads it without waiting for the fetch",
+								e.InstrPos(at), at.Parent(), !serialized, "", true)
+						}
+					}
+				}
 				// the wait channel is stored before the go statement on every path
 				p := FindPath(PathQuery{Fn: fetch, Target: func(in ssa.Instruction) bool { return in == goIn },
 					Block: func(in ssa.Instruction) bool { st, ok := in.(*ssa.Store); return ok && fieldOfAddr(st.Addr) == fWait }})
@@ -560,4 +576,22 @@ func fieldOwner(fa *ssa.FieldAddr) *types.Named {
 	}
 	n, _ := t.(*types.Named)
 	return n
+}
+
+// reflectTagJSON extracts the name part of a `json:"…"` struct tag.
+func reflectTagJSON(tag string) string {
+	i := strings.Index(tag, `json:"`)
+	if i < 0 {
+		return ""
+	}
+	rest := tag[i+6:]
+	j := strings.Index(rest, `"`)
+	if j < 0 {
+		return ""
+	}
+	name := rest[:j]
+	if k := strings.Index(name, ","); k >= 0 {
+		name = name[:k]
+	}
+	return name
 }
